@@ -87,10 +87,18 @@ func famC05(g *Gen, o *Out, n int, thorough bool) {
 		if g.pick(8) == 0 {
 			bs = nil
 		}
+		if c < 2 {
+			// sections whose body (CID + data) sits exactly on and around the 1/2- and 2/3-byte length
+			// prefix boundaries, through both APIs
+			bs = append(boundaryBlocks(g), bs...)
+		}
 		o.HashBlocks(bs)
 		roots := g.Roots(bs)
 		wo := g.wOpts()
 		api := []string{"bs", "st"}[g.pick(2)]
+		if c < 2 {
+			api = []string{"bs", "st"}[c]
+		}
 		seq++
 		st, err := openStore(api, wo, roots, seq)
 		o.Line(fmt.Sprintf("open api=%s %s roots=%s", api, wo, rootsArg(roots)), "r="+classifyStore(err))
